@@ -231,6 +231,102 @@ def noise_observations(m, seed):
     return obs
 
 
+# ---------------------------------------------------------------------------------------------
+# extended coverage: JointSystem.tla (block layout of the joint INS + gyro + accelerometer system)
+
+JOINT_INV = ["SensorRowsZero", "NoDirectPositionDrive", "QStructure", "WalkOwnBias", "DimsAgree"]
+SCALE = {"bias": 1e-4, "walk": 1e-6, "noise": 1e-5, "sm": 1e-4}
+
+
+def model_from_mask(IS, mask):
+    b = bits(mask)
+    return IS.EstimationModel(bias_sd=[P_BIAS[a] * SCALE["bias"] if b["bias"][a] else 0.0 for a in range(3)],
+                              noise=[P_NOISE[a] * SCALE["noise"] if b["noise"][a] else 0.0 for a in range(3)],
+                              bias_walk=[P_WALK[a] * SCALE["walk"] if b["walk"][a] else 0.0 for a in range(3)],
+                              scale_misal_sd=[[P_SM[o][i] * SCALE["sm"] if b["sm"][o][i] else 0.0 for i in range(3)] for o in range(3)])
+
+
+def joint_replay(m, cfg):
+    """cfg: parsed JOINT line. Runs both filters with models built from the masks, captures (F, Q) handed to
+    kalman.compute_process_matrices and compares their zero pattern / sensor-block diagonal with the specification."""
+    _, alt, gmask, amask, nstates, nnoise, fmay, qmay, qdiag, gstates, astates = cfg
+    IS, K, F_, M_ = m["inertial_sensor"], m["kalman"], m["filters"], m["measurements"]
+    pd = m["pd"]
+    rng = np.random.RandomState(gmask % 1000 + amask % 777)
+    out = []
+    fmay = {(int(a), int(b)) for a, b in fmay}
+    qmay = {(int(a), int(b)) for a, b in qmay}
+    qd = {int(i): int(ax) for i, ax in qdiag}
+    captured = []
+    orig = K.compute_process_matrices
+
+    def cpm(Fm, Qm, dt):
+        captured.append((np.array(Fm, dtype=float), np.array(Qm, dtype=float)))
+        return orig(Fm, Qm, dt)
+    pva = filt.make_pva(m, 0.0, rng, 0.0)
+    stamps = np.arange(1, 9) * 0.25
+    incs = filt.make_increments(m, 0.0, stamps, rng)
+    pos = filt.make_meas_data(m, "Position", [0.5, 1.25], pva, rng)
+    traj = pd.DataFrame(np.tile(pva.values, (9, 1)) + 1e-6 * rng.randn(9, 9), index=pd.Index(np.hstack([0.0, stamps]), name="time"), columns=list(pva.index))
+    for kind in ("fb", "ff"):
+        gm, am = model_from_mask(IS, gmask), model_from_mask(IS, amask)
+        captured.clear()
+        K.compute_process_matrices = cpm
+        try:
+            if kind == "fb":
+                res = F_.run_feedback_filter(pva, 1.0, 0.1, 0.1, 1.0, incs, gm, am, [M_.Position(pos, 1.0)], time_step=0.5, with_altitude=bool(alt))
+            else:
+                res = F_.run_feedforward_filter(traj, traj, 1.0, 0.1, 0.1, 1.0, gm, am, [M_.Position(pos, 1.0)], incs, time_step=0.5, with_altitude=bool(alt))
+        except Exception as e:
+            out.append("%s filter raised %s: %s" % (kind, type(e).__name__, str(e)[:120]))
+            continue
+        finally:
+            K.compute_process_matrices = orig
+        if list(res.gyro.columns) != [name(c) for c in gstates] or list(res.accel.columns) != [name(c) for c in astates]:
+            out.append("%s: result columns %s / %s differ from the model states" % (kind, list(res.gyro.columns), list(res.accel.columns)))
+        if not captured:
+            out.append("%s: compute_process_matrices was never called" % kind)
+        for Fm, Qm in captured:
+            if Fm.shape != (nstates, nstates) or Qm.shape != (nstates, nstates):
+                out.append("%s: joint system is %s, specification says %d states" % (kind, Fm.shape, nstates)); break
+            badF = [(i + 1, j + 1) for i, j in zip(*np.nonzero(Fm)) if (i + 1, j + 1) not in fmay]
+            badQ = [(i + 1, j + 1) for i, j in zip(*np.nonzero(Qm)) if (i + 1, j + 1) not in qmay]
+            if badF:
+                out.append("%s: F has non-zero entries outside the layout at %s" % (kind, badF[:4])); break
+            if badQ:
+                out.append("%s: Q has non-zero entries outside the layout at %s" % (kind, badQ[:4])); break
+            for i, ax in qd.items():
+                exp = np.float64((P_WALK[ax - 1] if ax < 10 else P_WALK[ax - 11]) * SCALE["walk"]) ** 2
+                if Qm[i - 1, i - 1] != exp:
+                    out.append("%s: Q[%d,%d] = %r, the bias-walk intensity of that state squared is %r" % (kind, i, i, Qm[i - 1, i - 1], exp)); break
+    return out
+
+
+def joint_system(rep, tier, seed, valid_masks):
+    rng = np.random.RandomState(seed + 5)
+    pick = {0, 0b111, 0b111111, 2 ** 18 - 1} | {int(x) for x in rng.choice(valid_masks, size=3 if tier == "quick" else 10, replace=False)}
+    r = tlc.run_tlc("JointSystem", dict(spec="Spec", constants=dict(Masks=pick), invariants=JOINT_INV), workers=4, timeout=3600)
+    rep.add_tlc("JointSystem[%d masks x %d masks x 2 modes]" % (len(pick), len(pick)), r, note="extended coverage, no listed property claimed")
+    if not r.ok:
+        rep.machinery("leg M: JointSystem violates %s" % r.violated)
+    cfgs = []
+    for line in r.prints:
+        v = tlc.parse_value(line)
+        if v[0] == "JOINT":
+            cfgs.append(v)
+    n_bad = 0
+    for k, status, out in pool.run_tasks(lambda m, c: joint_replay(m, c), cfgs, init=filt.init_worker, task_timeout=600):
+        rep.traces += 1
+        if status != "done":
+            rep.machinery("joint system replay %s: %s" % (status, str(out)[:300]))
+        else:
+            for p in out[:1]:
+                n_bad += 1
+                rep.model_drift("JointSystem (with_altitude=%s, gyro mask %d, accel mask %d): %s" % (cfgs[k][1], cfgs[k][2], cfgs[k][3], p))
+    rep.extra["joint_system"] = dict(configurations=len(cfgs), mismatches=n_bad,
+                                     note="extended coverage: a mismatch is reported as MODEL-DRIFT, it is not a clause of C14")
+
+
 def check(rep, pid, tier, seed):
     rep.assumptions += [
         "layouts are compared on models built with a distinct prime per slot (a value identifies the slot it came from)",
@@ -315,6 +411,8 @@ def check(rep, pid, tier, seed):
             rep.violation("C14 estimates, mask %d: %s" % (tasks[k]["mask"], out), dict(kind="estimates", task=dict(tasks[k], states=tlc.to_jsonable(tasks[k]["states"]))), key=out[:40])
     if tasks:
         rep.sample(dict(leg="R/estimates", mask=tasks[0]["mask"], ops=[list(o) for o in tasks[0]["ops"]]))
+    # ---- extended: joint system layout
+    joint_system(rep, tier, seed, valid)
     # ---- statistical clause
     m = filt._imports()
     obs = noise_observations(m, seed)
